@@ -166,10 +166,13 @@ def validate(traces, wd):
                     fh.write(json.dumps({"ev": tr["ev"]}) + "\n")
                 dcfg = os.path.join(wd, f"d_{dev}_{fl}_{tidx}.cfg")
                 cfgfile(dcfg, dev, fl, True)
-                d = tlc.run("LinkTrace", dcfg, workdir=os.path.join(wd, f"dv_{dev}_{fl}_{tidx}"), workers=1, deque=True,
-                            env={"TRACE_FILE": dpath}, timeout=300)
-                names = sorted({m.group(2) for m in re.finditer(r'<<"CLAUSE", \d+, (\d+), "(\w+)">>', d.out)
-                                if int(m.group(1)) == upto}) or ["action-not-enabled"]
+                try:
+                    d = tlc.run("LinkTrace", dcfg, workdir=os.path.join(wd, f"dv_{dev}_{fl}_{tidx}"), workers=1, deque=True,
+                                env={"TRACE_FILE": dpath}, timeout=150)
+                    names = sorted({m.group(2) for m in re.finditer(r'<<"CLAUSE", \d+, (\d+), "(\w+)">>', d.out)
+                                    if int(m.group(1)) == upto}) or ["action-not-enabled"]
+                except tlc.MachineryError:
+                    pass            # the diagnosis is a hint; the verdict is the rejection
             out.append({"trace": tr, "index": upto, "clauses": names})
         return r, out
     with ThreadPoolExecutor(len(groups) or 1) as ex:
